@@ -88,6 +88,19 @@ func init() {
 				}
 			}
 		})
+		// contents made of the characters the sink escapes, alone and combined (a value holding only
+		// one kind of them is escaped like any other)
+		allStrings([]string{"'", "&", "a", "\"", "<"}, 4, func(body string) {
+			for _, tm := range []struct{ tmpl string }{{"[<%= `" + body + "` %>]"}, {"<% let v = `" + body + "` %>[<%= v %>]"}, {"[<%= for (v) in [`" + body + "`] { %><%= v %><% } %>]"}} {
+				c := RCase{Tmpl: tm.tmpl}
+				o := e.addRenderCase("strlit", c)
+				want := "[" + template.HTMLEscapeString(body) + "]"
+				e.Distinct("s/" + tm.tmpl)
+				if o.Class != "OK" || o.Out != want {
+					e.Violate("c02-string", fmt.Sprintf("%q rendered %q (%s %s), want %q", tm.tmpl, o.Out, o.Class, o.Msg, want), map[string]interface{}{"case": c, "observed": o})
+				}
+			}
+		})
 		for _, body := range []string{`a"b`, `""`, `"`, `\"`, `a\"`, `x"y"z`, `%>"<%`, `# "c"`} {
 			tmpl := `[<%= "` + strings.ReplaceAll(body, `"`, `\"`) + `" %>]`
 			c := RCase{Tmpl: tmpl}
@@ -118,6 +131,9 @@ func init() {
 			case 6:
 				return seg{"<%= n + 1 %>", "4"}
 			case 7:
+				if e.Rng.Intn(2) == 0 {
+					return seg{"<%= ap %>", "it&#39;s"}
+				}
 				return seg{"<%= s %>", "v&amp;"}
 			case 8:
 				return seg{"<% let q = 1 %>", ""}
@@ -164,7 +180,7 @@ func init() {
 			}
 			w := wrappers[e.Rng.Intn(len(wrappers))]
 			tmpl := w.pre + src.String() + w.post
-			c := RCase{Tmpl: tmpl, Binds: []Bind{{"n", vInt(3)}, {"s", vStr("v&")}, {"blk", vGo(103)}}}
+			c := RCase{Tmpl: tmpl, Binds: []Bind{{"n", vInt(3)}, {"s", vStr("v&")}, {"ap", vStr("it's")}, {"blk", vGo(103)}}}
 			o := e.addRenderCase("mix", c)
 			exp := w.wpre + want.String() + w.wpost
 			e.Distinct("m/" + tmpl)
